@@ -59,3 +59,17 @@ EXTRA += [
     ("C02", "DsProofs.Properties.C02Score", ["DsProofs.C02.C02_score_reduce", "DsProofs.C02.C02_score_ok", "DsProofs.C02.C02_score_shapley", "DsProofs.C02.C02_score_accuracy",
                                               "DsProofs.C02.C02_dispatch_consistent", "DsProofs.C02.C02_dispatch_shapley", "DsProofs.C02.C02_score_shapley_k1"]),
 ]
+EXTRA += [
+    ("C11", "DsProofs.Properties.C11Units", ["DsProofs.C11Units.C11_units_inv", "DsProofs.C11Units.C11_units_history", "DsProofs.C11Units.C11_units_roundtrip",
+                                              "DsProofs.C11Units.C11_units_roundtrip_later", "DsProofs.C11Units.C11_units_positions_stable",
+                                              "DsProofs.C11Units.C11_units_first_mention", "DsProofs.C11Units.C11_units_frozen",
+                                              "DsProofs.C11Units.C11_units_fromData_total", "DsProofs.C11Units.C11_units_union"]),
+]
+EXTRA += [
+    ("C01", "DsProofs.Properties.C01Obj", ["DsProofs.C01Obj.C01_obj_step_clears", "DsProofs.C01Obj.C01_obj_step_error", "DsProofs.C01Obj.C01_obj_inv",
+                                            "DsProofs.C01Obj.C01_obj_history", "DsProofs.C01Obj.C01_obj_history_units", "DsProofs.C01Obj.C01_obj_rowsOf_default",
+                                            "DsProofs.C01Obj.C01_obj_unitReduce_default", "DsProofs.C01Obj.C01_obj_fastpath_sound",
+                                            "DsProofs.C01Obj.C01_obj_fastpath_sound_inv", "DsProofs.C01Obj.C01_obj_score", "DsProofs.C01Obj.C01_obj_score_reachable",
+                                            "DsProofs.C01Obj.C01_obj_score_edited", "DsProofs.C01Obj.C01_obj_score_derived", "DsProofs.C01Obj.C01_obj_score_history"]),
+    ("C19", "DsProofs.Properties.C01Obj", ["DsProofs.C01Obj.C01_obj_history"]),
+]
